@@ -37,6 +37,10 @@ def run(chk, replay=None):
         chk.add_mc(r)
         for t in core.tuples(r["out"], "REACH"):
             chk.notes.append({"model": r["cfg"], "reach": t[1:]})
+    # ---- BEGIN inductive block (growth item "ind": unbounded results, thorough tier only) ----
+    if thorough and not replay:
+        _inductive(chk)
+    # ---- END inductive block ----
     evs = core.read_ndjson(trace)
 
     def key(e):
@@ -66,3 +70,42 @@ def run(chk, replay=None):
                         "harness: cutting a returned list into runs of equal value div 2^16 and logging offsets; base-4096 digit encoding",
                         "hooks ecm::vhook_smooth, pollard_pm1::vhook_smooth and the three pm1_blk events return the values the code uses",
                         "B1 >= 4 (pm1_impl asserts B1 > 3); n for pm1_impl is a safe prime so stage 1 is never cut short"]
+
+
+# ---- BEGIN inductive block (growth item "ind") ----
+def _inductive(chk):
+    """OffsetInv / InBounds of the rolling-offsets sieve for EVERY block width, block count and list of moduli:
+    TLAPS proof (PrimeSieveProofs.tla) of the restated model PrimeSieveInd.tla, TLC link of the restatement to
+    PrimeSieveModel.tla, Apalache runs on concrete moduli and counterexamples / failed proofs for the broken variants.
+    Anything unexpected here is a tool error (exit 2), never a violation."""
+    if not core.ind_enabled():
+        chk.notes.append("inductive block skipped (VERIF_NO_IND=1)")
+        return
+    ind = {"claim": "PrimeSieveInd!IndInv (TypeOK, PhaseInv, LoopInv, OffsetInv, InBounds) is inductive for every width w >= 1, "
+                    "every block count, every NP and all moduli P[k] >= 1 (TLAPS); PrimeSieveModel's steps are steps of "
+                    "PrimeSieveInd and IndInv holds on its reachable states (TLC, widths 4 9 16 17 25 32)",
+           "runs": []}
+    # the restatement is linked to the model the check uses
+    for wd in (4, 9, 16, 17, 25, 32):
+        chk.add_mc(core.model_check("primes/MC_PrimeSieveInd.tla", "MC_PrimeSieveInd_%d.cfg" % wd, workers=2, timeout=600))
+    # the proof, and its non-vacuity (same scripts on `while o <= len` and on initial offsets p - w mod p)
+    ind["runs"].append(core.ind_expect(core.tlapm("primes/PrimeSieveProofs.tla", timeout=900), "ok", "PrimeSieveProofs"))
+    bad = core.ind_expect(core.tlapm("primes/PrimeSieveProofsBad.tla", timeout=900), "failed", "PrimeSieveProofsBad")
+    if bad["failed"] < 2:
+        raise core.ToolError("PrimeSieveProofsBad: %d failed obligations, expected both false claims to fail" % bad["failed"])
+    ind["runs"].append(bad)
+    # Apalache (moduli 2 3 5 7): base case for a symbolic width, step for width 60 and any block count; the broken
+    # variants give counterexamples
+    A = "primes/PrimeSieveInd.tla"
+    for kw, want in ((dict(init="Init", length=0), "ok"),
+                     (dict(init="IndInit60", length=1), "ok"),
+                     (dict(init="InitBad", length=0), "counterexample"),
+                     (dict(init="IndInit60", next="NextBad", length=1), "counterexample")):
+        ind["runs"].append(core.ind_expect(core.apalache(A, "IndInv", cinit="CInitSmall", timeout=900, **kw), want,
+                                           "PrimeSieveInd %s" % kw))
+    chk.cov["inductive"] = ind
+    chk.notes.append("inductive: OffsetInv/InBounds proved for all widths (tlapm, %d obligations, %.0fs)" %
+                     (ind["runs"][0]["obligations"], ind["runs"][0]["wall_s"]))
+    chk.assumptions.append("tlapm (Z3, Zenon, Isabelle, PTL back ends) and apalache-mc/Z3 for the unbounded offsets invariant; "
+                           "PrimeSieveInd.tla restates PrimeSieveModel.tla (linked by TLC: MC_PrimeSieveInd.tla)")
+# ---- END inductive block ----
